@@ -144,8 +144,10 @@ class BaseKey(t.Generic[NativePrivateKey, NativePublicKey], metaclass=ABCMeta):
             data.update(self.extra_parameters)  # type: ignore
         data["kty"] = self.key_type
         self.validate_dict_key(data)
-        self._dict_value = data
-        return data
+        # fill the existing dict instead of rebinding the attribute: another thread may have
+        # stored a "kid" into it in the meantime (ensure_kid), which must not get lost
+        self._dict_value.update(data)
+        return self._dict_value
 
     @property
     def public_key(self) -> NativePublicKey:
@@ -179,8 +181,8 @@ class BaseKey(t.Generic[NativePrivateKey, NativePublicKey], metaclass=ABCMeta):
             data.update(params)
             return data
 
-        # clear private fields
-        for k in self.dict_value:
+        # clear private fields (walk our own copy: the shared dict may get a "kid" concurrently)
+        for k in list(data):
             if k in self.value_registry and self.value_registry[k].private:
                 del data[k]
 
